@@ -192,6 +192,61 @@ b("benign-C03-slicestable", ["C03"], [(EDITS,
   "\tsort.Stable(orderedMounts(mounts))",
   "\tsort.SliceStable(mounts, func(i, j int) bool { return orderedMounts(mounts).Less(i, j) })")], "another stable sort with the same order")
 
+# ---------------------------------------------------------------- C01
+m("C01-dirs-reversed", "C01", [(DIRS,
+  "\tfor priority, dir := range dirs {\n",
+  "\tfor priority := len(dirs) - 1; priority >= 0; priority-- {\n\t\tdir := dirs[priority]\n")], "directories scanned highest priority first: equal handling differs for conflicts recorded earlier")
+m("C01-skip-root", "C01", [(DIRS,
+  "\t\t\t\tif path == dir {\n\t\t\t\t\treturn nil\n\t\t\t\t}\n\t\t\t\treturn filepath.SkipDir",
+  "\t\t\t\tif path == dir || filepath.Dir(path) == dir {\n\t\t\t\t\treturn nil\n\t\t\t\t}\n\t\t\t\treturn filepath.SkipDir")], "first-level sub-directories are descended into")
+m("C01-spec-before-errcheck", "C01", [(CACHE,
+  "\t\tpath = filepath.Clean(path)\n\t\tif err != nil {\n\t\t\tcollectError(fmt.Errorf(\"failed to load CDI Spec %w\", err), path)\n\t\t\treturn nil\n\t\t}\n\n\t\tvendor := spec.GetVendor()\n\t\tspecs[vendor] = append(specs[vendor], spec)\n",
+  "\t\tpath = filepath.Clean(path)\n\t\tif spec != nil {\n\t\t\tspecs[spec.GetVendor()] = append(specs[spec.GetVendor()], spec)\n\t\t}\n\t\tif err != nil {\n\t\t\tcollectError(fmt.Errorf(\"failed to load CDI Spec %w\", err), path)\n\t\t\treturn nil\n\t\t}\n\n")], "Spec listed before the load error is looked at")
+m("C01-conflict-one-path", "C01", [(CACHE,
+  "\t\t\t\tname, devPath, oldPath), devPath, oldPath)",
+  "\t\t\t\tname, devPath, oldPath), devPath)")], "a conflict is reported for one of the two files only")
+m("C01-store-always", "C01", [(CACHE,
+  "\t\t\tother, ok := devices[qualified]\n\t\t\tif ok {\n\t\t\t\tif resolveConflict(qualified, dev, other) {\n\t\t\t\t\tcontinue\n\t\t\t\t}\n\t\t\t}\n\t\t\tdevices[qualified] = dev",
+  "\t\t\tother, ok := devices[qualified]\n\t\t\tdevices[qualified] = dev\n\t\t\tif ok {\n\t\t\t\tif resolveConflict(qualified, dev, other) {\n\t\t\t\t\tcontinue\n\t\t\t\t}\n\t\t\t}")], "the last file scanned always wins")
+m("C01-conflict-delete-conditional", "C01", [(CACHE,
+  "\tfor conflict := range conflicts {\n\t\tdelete(devices, conflict)\n\t}",
+  "\tfor conflict := range conflicts {\n\t\tif len(conflicts) > 1 {\n\t\t\tdelete(devices, conflict)\n\t\t}\n\t}")], "a single conflicting name stays resolvable")
+m("C01-write-yml", "C01", [(CACHE,
+  "\tpath = filepath.Join(specDir, name)\n\tif ext := filepath.Ext(path); ext != \".json\" && ext != \".yaml\" {\n\t\tpath += defaultSpecExt\n\t}\n\n\tspec, err = newSpec(raw, path, prio)",
+  "\tpath = filepath.Join(specDir, name)\n\tif ext := filepath.Ext(path); ext != \".json\" && ext != \".yaml\" && ext != \".yml\" {\n\t\tpath += defaultSpecExt\n\t}\n\n\tspec, err = newSpec(raw, path, prio)")], "WriteSpec treats .yml as a Spec extension")
+m("C01-lt-replaces", "C01", [(CACHE,
+  "\t\tcase devPrio > oldPrio:\n",
+  "\t\tcase devPrio != oldPrio:\n")], "a lower-priority definition scanned later replaces the higher one")
+m("C01-getdevice-from-spec", "C01", [(CACHE,
+  "\t_, _ = c.refreshIfRequired(false) // we record but ignore errors\n\n\treturn c.devices[device]",
+  "\t_, _ = c.refreshIfRequired(false) // we record but ignore errors\n\n\tfor _, specs := range c.specs {\n\t\tfor _, s := range specs {\n\t\t\tif d := s.devices[device]; d != nil {\n\t\t\t\treturn d\n\t\t\t}\n\t\t}\n\t}\n\treturn c.devices[device]")], "GetDevice bypasses precedence by searching all Specs")
+b("benign-C01-commaok-style", ["C01", "C13", "C12"], [(CACHE,
+  "\t\t\tother, ok := devices[qualified]\n\t\t\tif ok {\n\t\t\t\tif resolveConflict(qualified, dev, other) {\n\t\t\t\t\tcontinue\n\t\t\t\t}\n\t\t\t}\n\t\t\tdevices[qualified] = dev",
+  "\t\t\tif other, ok := devices[qualified]; ok && resolveConflict(qualified, dev, other) {\n\t\t\t\tcontinue\n\t\t\t}\n\t\t\tdevices[qualified] = dev")], "same logic with a combined condition")
+b("benign-C01-switch-as-if", ["C01", "C13"], [(CACHE,
+  "\t\tswitch {\n\t\tcase devPrio > oldPrio:\n\t\t\t// the higher priority Spec shadows any lower priority conflict\n\t\t\tdelete(conflicts, name)\n\t\t\treturn false\n\t\tcase devPrio == oldPrio:",
+  "\t\tif oldPrio < devPrio {\n\t\t\t// the higher priority Spec shadows any lower priority conflict\n\t\t\tdelete(conflicts, name)\n\t\t\treturn false\n\t\t}\n\t\tswitch {\n\t\tcase devPrio == oldPrio:")], "comparison written the other way round")
+
+# ---------------------------------------------------------------- C13
+m("C13-errors-merged", "C13", [(CACHE,
+  "\tc.errors = specErrors\n",
+  "\tif c.errors == nil {\n\t\tc.errors = map[string][]error{}\n\t}\n\tfor p, e := range specErrors {\n\t\tc.errors[p] = e\n\t}\n")], "error entries are merged into the old map: they never disappear after the cause is gone")
+m("C13-refresh-returns-nil", "C13", [(CACHE,
+  "\terrs := []error{}\n\tfor _, specErrs := range specErrors {\n\t\terrs = append(errs, errors.Join(specErrs...))\n\t}\n\treturn errors.Join(errs...)\n}\n\n// RefreshIfRequired",
+  "\terrs := []error{}\n\tfor _, specErrs := range specErrors {\n\t\tif len(specErrs) > 1 {\n\t\t\terrs = append(errs, errors.Join(specErrs...))\n\t\t}\n\t}\n\treturn errors.Join(errs...)\n}\n\n// RefreshIfRequired")], "files with a single error are left out of refresh's result")
+m("C13-Refresh-cached-nil", "C13", [(CACHE,
+  "\t// collect and return cached errors, much like refresh() does it\n\terrs := []error{}\n\tfor _, specErrs := range c.errors {\n\t\terrs = append(errs, errors.Join(specErrs...))\n\t}\n\treturn errors.Join(errs...)",
+  "\treturn nil")], "explicit Refresh in auto-refresh mode reports no error when nothing changed, although files are in error")
+m("C13-collect-wrong-key", "C13", [(CACHE,
+  "\t\t\tspecErrors[path] = append(specErrors[path], err)",
+  "\t\t\tspecErrors[filepath.Dir(path)] = append(specErrors[filepath.Dir(path)], err)")], "errors are filed under the directory, not the failing file")
+m("C13-readspec-partial", "C13", [(SPEC,
+  "\tspec, err := newSpec(raw, path, priority)\n\tif err != nil {\n\t\treturn nil, err\n\t}\n\n\treturn spec, nil",
+  "\tspec, err := newSpec(raw, path, priority)\n\tif err != nil {\n\t\treturn nil, nil\n\t}\n\n\treturn spec, nil")], "an invalid Spec is dropped without an error")
+m("C13-walkerr-ignored", "C13", [(DIRS,
+  "\t\t\tif err != nil {\n\t\t\t\treturn scanFn(path, priority, nil, err)\n\t\t\t}\n\n\t\t\tspec, err = ReadSpec(path, priority)",
+  "\t\t\tif err != nil {\n\t\t\t\treturn nil\n\t\t\t}\n\n\t\t\tspec, err = ReadSpec(path, priority)")], "a Spec file the walk could not stat is skipped silently")
+
 
 def emit():
     os.makedirs(os.path.join(VERIF, "mutants"), exist_ok=True)
